@@ -585,7 +585,13 @@ func (b built) wantDeep(n int) (string, bool) {
 // Resolve(n 0 R); D<n> = ResolveDeep(n 0 R); E<n> = ResolveDeep(GetObject(n)) (the
 // container handed out by a lookup is handed back); x<n> / y<n> = the resolver
 // package's GetObjectResolvedDeep(n) / ResolveReferenceDeep(n 0 R) on one resolver
-// bound to the reader.
+// bound to the reader. Those two wrappers clear the resolver's state after every call; the
+// package's own entry points do not, and a caller that keeps one resolver for the life
+// of the document goes through them: s<n> = Resolve(n 0 R) (shallow), p<n> =
+// ResolveDeep(n 0 R), q<n> = ResolveDeep(GetObject(n)), z<n> = GetObjectResolved(n)
+// (shallow), all on the same long-lived resolver as x/y. A lookup that fails (a deep
+// resolution that runs into a deleted or never-defined object, a damaged container, a
+// limit) is a lookup like any other: what comes after it must not depend on it.
 func parseOp(op string) (kind byte, n int) {
 	if op == "c" || op == "" {
 		return 'c', 0
@@ -594,7 +600,12 @@ func parseOp(op string) (kind byte, n int) {
 	return op[0], n
 }
 
-func isDeep(kind byte) bool { return kind == 'D' || kind == 'E' || kind == 'x' || kind == 'y' }
+func isDeep(kind byte) bool {
+	return kind == 'D' || kind == 'E' || kind == 'x' || kind == 'y' || kind == 'p' || kind == 'q'
+}
+
+// isStored: the lookups that must yield the newest value exactly as stored.
+func isStored(kind byte) bool { return kind == 'g' || kind == 'r' || kind == 's' || kind == 'z' }
 
 type session struct {
 	rd  *reader.Reader
@@ -632,6 +643,18 @@ func (s *session) do(op string) (core.Object, error) {
 		return s.res.GetObjectResolvedDeep(n)
 	case 'y':
 		return s.res.ResolveReferenceDeep(ref)
+	case 's':
+		return s.res.Resolve(ref)
+	case 'p':
+		return s.res.ResolveDeep(ref)
+	case 'q':
+		obj, err := s.rd.GetObject(n)
+		if err != nil {
+			return nil, err
+		}
+		return s.res.ResolveDeep(obj)
+	case 'z':
+		return s.res.GetObjectResolved(n)
 	}
 	return nil, fmt.Errorf("harness: unknown op %q", op)
 }
@@ -684,7 +707,7 @@ func runCase(c *hx.Ctx, k kase, tag string) {
 			} else {
 				errs = append(errs, "")
 			}
-			if kind == 'g' || kind == 'r' {
+			if isStored(kind) {
 				_, n := parseOp(op)
 				modelOps = append(modelOps, fmt.Sprintf("g%d", n))
 				modelRes = append(modelRes, classify(obj, err))
@@ -783,7 +806,7 @@ func runCase(c *hx.Ctx, k kase, tag string) {
 
 func genOps(r *hx.Rng, maxNum int) []string {
 	n := r.Range(3, 14)
-	kinds := []string{"g", "g", "g", "g", "g", "r", "r", "D", "D", "E", "x", "y"}
+	kinds := []string{"g", "g", "g", "g", "g", "r", "r", "D", "D", "E", "x", "y", "s", "s", "p", "p", "q", "z"}
 	var ops []string
 	for i := 0; i < n; i++ {
 		switch {
@@ -922,6 +945,12 @@ func exhaustive(c *hx.Ctx, n, r int) {
 		{"D" + fmt.Sprint(n+1), "E2", "r1", "r2", "D2"},
 		{"x2", "g1", "D2", "c", "E1", "g2", "g1"},
 		{"r2", "D2", "y2", "g2", "D2", "r2"},
+		// one long-lived resolver, entry points that keep its state between calls
+		{"p" + top, "s" + top, "p" + top, "s1", "z" + top},
+		{"q" + top, "p1", "s" + top, "y" + top, "q" + top},
+		{"s" + top, "p" + top, "q" + top, "z1", "p" + top, "x" + top, "s" + top},
+		{"p" + fmt.Sprint(n+1), "p2", "s2", "s1", "p1", "q2"},
+		{"x2", "p2", "c", "s2", "z2", "p2", "g2"},
 	}
 	for code := 0; code < states; code++ {
 		for xk := 0; xk < 4; xk++ {
@@ -1076,9 +1105,10 @@ func entryOps(c *hx.Ctx) {
 func Run(c *hx.Ctx) {
 	entryOps(c)
 	byteOps(c)
-	c.Rep.Rule = "revision histories (add/replace/delete per object per revision; values integers, dictionaries and arrays that hold references to other objects, nested containers, dangling references; classic or stream xref per revision; object-stream membership; indirect /Length; W widths; predictors) rendered by the harness PDF writer, then lookup sequences over GetObject, Resolve, ResolveDeep (of a reference and of a looked-up container) and the resolver package's deep lookups, with repeats and ClearCache, every answer also compared with the same lookup alone on a fresh reader; exhaustive for n=2 objects x r<=2 (thorough: r<=3) revisions x both xref kinds; non-trivial = at least one lookup expected to succeed; distinct by (history, ops); at the bounds of the C02 repairs (bounds.go): chain files in which 1,2,3,14,15,16,17,18,40,300 (thorough 1000, 5000) objects are loaded inside each other through indirect /Length (limit 16), every object alone on a fresh reader and in lookup sequences with cache clears; object streams with header offsets, /N and /First at len-1/len/len+1/2^31/2^62/2^63-1, every index asked twice; deep resolution of reference chains around 49/50 and 1000/1001 objects, shared graphs of 2^40 paths, page/parent cycles"
+	c.Rep.Rule = "revision histories (add/replace/delete per object per revision; values integers, dictionaries and arrays that hold references to other objects, nested containers, dangling references; classic or stream xref per revision; object-stream membership; indirect /Length; W widths; predictors) rendered by the harness PDF writer, then lookup sequences over GetObject, Resolve, ResolveDeep (of a reference and of a looked-up container) and the resolver package on one long-lived resolver (its resetting wrappers GetObjectResolvedDeep / ResolveReferenceDeep / GetObjectResolved and its own entry points Resolve / ResolveDeep of a reference and of a looked-up container, which keep the resolver's state between calls), with repeats and ClearCache, every answer also compared with the same lookup alone on a fresh reader; exhaustive for n=2 objects x r<=2 (thorough: r<=3) revisions x both xref kinds; non-trivial = at least one lookup expected to succeed; distinct by (history, ops); at the bounds of the C02 repairs (bounds.go): chain files in which 1,2,3,14,15,16,17,18,40,300 (thorough 1000, 5000) objects are loaded inside each other through indirect /Length (limit 16), every object alone on a fresh reader and in lookup sequences with cache clears; object streams with header offsets, /N and /First at len-1/len/len+1/2^31/2^62/2^63-1, every index asked twice; deep resolution of reference chains around 49/50 and 1000/1001 objects, shared graphs of 2^40 paths, page/parent cycles, each followed on the same resolver by lookups of the objects on the refused path; document-shaped histories (seq.go: a root, every object referenced from a lower-numbered one, some from two; later revisions delete objects that unchanged objects still refer to, replace them or define them again) with lookup sequences that start deep resolutions which must fail below their starting point and then look up the objects on and off the failed path through every kind of lookup"
 	exhaustive(c, 2, 1)
 	exhaustive(c, 2, 2)
+	afterFailureOps(c)
 	if c.Thorough() {
 		exhaustive(c, 2, 3)
 		exhaustive(c, 3, 2)
